@@ -312,13 +312,13 @@ def _worker(arg):
 
 def main(tier: str) -> int:
     run = common.Run(PROP, tier)
-    n = 30 if tier == 'quick' else 1000
+    n = 30 if tier == 'quick' else 3000
     run.require('snapshots_compared', 'builds_compared_with_fresh_process',
                 'configuration_objects_edited_in_place',
                 'support_files_compared', 'failed_builds', 'successful_builds')
     for item, res in run.pmap(_worker, [(run.seed, i) for i in range(n)], timeout=1800):
         common.absorb(run, {'seed': item[0], 'stream': item[1]}, res)
-    n_rec = 8 if tier == 'quick' else 120
+    n_rec = 8 if tier == 'quick' else 400
     run.require('parse_build_forget_rounds', 'recycled_addresses')
     for item, res in run.pmap(eval_recycle, [(run.seed, i) for i in range(n_rec)], timeout=1800):
         common.absorb(run, {'seed': item[0], 'stream': item[1], 'kind': 'recycle'}, res)
